@@ -1100,6 +1100,19 @@ impl Meta {
         let p2 = gen_prog(rng, true);
         let l2 = gen::render(&p2);
         let nums1: Vec<u16> = p1.lines.iter().map(|l| p1.num(l.label)).collect();
+        // a hand-written file "G": the other program with bare line numbers in between (a bare number in a file
+        // removes that line, as it does when typed)
+        {
+            let mut g: Vec<String> = vec![];
+            for (i, l) in l2.iter().enumerate() {
+                g.push(l.clone());
+                if rng.chance(1, 4) {
+                    let victim = if rng.coin() { l2[rng.usize(i + 1)].split(' ').next().unwrap_or("1").to_string() } else { rng.range(0, 900).to_string() };
+                    g.push(victim);
+                }
+            }
+            s.files.insert("G".to_string(), g);
+        }
         let n_edits = rng.range(1, 8);
         let mut mutated = false;
         for _ in 0..n_edits {
@@ -1120,7 +1133,7 @@ impl Meta {
                 12 => format!("{} DELETE {}", rng.pick(&nums1), rng.pick(&nums1)),
                 11 if rng.coin() => "RUN".to_string(),
                 13 => "SAVE \"F\"".to_string(),
-                14 => rng.pick(&["LOAD \"F\"", "LOAD \"F\"", "LOAD \"NOFILE\""]).to_string(),
+                14 => rng.pick(&["LOAD \"F\"", "LOAD \"F\"", "LOAD \"NOFILE\"", "LOAD \"G\"", "LOAD \"G\""]).to_string(),
                 0 | 1 => rng.pick(&l2).clone(),                                   // insert / replace from another program
                 2 => format!("{}", rng.pick(&nums1)),                             // delete an existing line
                 3 => format!("{}", rng.range(0, 900)),                            // delete a (probably) absent line
